@@ -133,14 +133,17 @@ type vsymC31Rec struct {
 
 func vsymC31GenRecord(i int) vsymC31Rec {
 	r := vsymRec{tsDelta: vsym_Int64("tsDelta"), offDelta: int32(i)}
-	vsym_Assume(vsym_And(r.tsDelta >= -64, r.tsDelta <= 63))
-	switch vsym_Choose("key-value-shape", 3) {
-	case 0:
+	// three record shapes (key / value / timestamp-delta width vary together)
+	switch vsym_Choose("record-shape", 3) {
+	case 0: // one-byte varint delta
 		r.key, r.value = nil, []byte{}
-	case 1:
+		vsym_Assume(vsym_And(r.tsDelta >= -64, r.tsDelta <= 63))
+	case 1: // beyond 32 bits (records spanning weeks of client timestamps): six-byte varint
 		r.key, r.value = []byte{}, vsym_Bytes("value", 1)
+		vsym_Assume(vsym_And(r.tsDelta >= 1<<35, r.tsDelta < 1<<35+64))
 	case 2:
 		r.key, r.value = vsym_Bytes("key", 1), vsym_Bytes("value", 2)
+		vsym_Assume(vsym_And(r.tsDelta <= -(1<<35), r.tsDelta > -(1<<35)-64))
 	}
 	set := vsymC31HeaderSets()[vsym_Choose("headers", vsym_Param("headersets"))]
 	out := vsymC31Rec{}
